@@ -108,7 +108,8 @@ func verifSeq(n int, f func(i int) string, sep string) string {
 // VerifC05Capacity: scripts at and just beyond the operand-width limits.
 // kind: 0 call arguments, 1 locals in main, 2 locals in a function, 3 array
 // literal elements, 4 map literal elements, 5 distinct constants, 6 function
-// parameters, 7 captured variables, 8 nesting depth (with tracing on).
+// parameters, 7 captured variables, 8 nesting depth (with tracing on), 9-12
+// the limits inside expressions the optimizer evaluates at compile time.
 func VerifC05Capacity() {
 	kind := verifrt.Param("kind")
 	n := verifrt.Param("n")
@@ -132,6 +133,17 @@ func VerifC05Capacity() {
 		src = "f := func(" + verifSeq(n, func(i int) string { return "p" + num(i) }, ", ") + ") { return p0 }\nreturn 1"
 	case 7:
 		src = verifSeq(n, func(i int) string { return "v" + num(i) + " := " + num(i) }, "\n") + "\nf := func() { return " + verifSeq(n, func(i int) string { return "v" + num(i) }, " + ") + " }\nreturn f()"
+	// 9-12: the same limits inside expressions that the optimizer evaluates at
+	// compile time (constant arguments of builtins, constant container literals,
+	// function literals called on the spot) - a second compiler runs there
+	case 9:
+		src = "return string(" + verifSeq(n, num, ", ") + ")"
+	case 10:
+		src = "return len([" + verifSeq(n, num, ", ") + "])"
+	case 11:
+		src = "return len({" + verifSeq(n, func(i int) string { return "k" + num(i) + ": " + num(i) }, ", ") + "})"
+	case 12:
+		src = "return func() {\n" + verifSeq(n, func(i int) string { return "v" + num(i) + " := " + num(i) }, "\n") + "\nreturn v0\n}() + int(\"1\")"
 	case 8:
 		var w bytes.Buffer
 		opts.Trace = &w
